@@ -5,13 +5,12 @@ CONSTANTS
   Spawned = {"h1"}
   Closers = {"k1"}
   MaxFail = 1
-  MaxKill = 0
-  Eager = TRUE
+  MaxKill = 1
+  Eager = FALSE
   CloseErr = FALSE
   Defect_LateCloseUnderLock = FALSE
-  Defect_NoJoin = FALSE
+  Defect_NoJoin = TRUE
   Defect_AddDeadConn = FALSE
   Mut = "none"
-ACTION_CONSTRAINT EmitEdge
-INVARIANT InitMark
+INVARIANTS TypeOK NoSelfDeadlock SizeBound OneFiller ClosedEmpty ReportedNotInPool NoStray NoLeakAfterClose
 CHECK_DEADLOCK FALSE
